@@ -564,7 +564,9 @@ TYPED_TARGETS = [("int", "[1,2]", "two"), ("float", "1.5", "x"), ("boolean", "tr
 # value texts that are hard on the list syntax of <value>: bare carriage return, line breaks outside quotes, one very long
 # entry, unbalanced quotes and brackets
 ODD_VALUE_TEXTS = ["[a,\rb]", "[1,2,\n3,4]", "[" + "x" * 140000 + ",y]", "[\"unclosed,b]", "[a\"b,c]", "[[1,2],[3]]", "[,]", "[ ]",
-                   "[a,b", "a,b]", "[\"a\nb\",c]", "\r", "[\r]", "[a,b]]", "[\x85,\u2028]"]
+                   "[a,b", "a,b]", "[\"a\nb\",c]", "\r", "[\r]", "[a,b]]", "[\x85,\u2028]",
+                   # long runs of one character class followed by another: hard on regular expressions that look for number-like text
+                   "1" * 40 + "x", "-" + "9" * 60 + "e", "[" + "7" * 45 + "_," + "0" * 45 + ".]", "2020-01-01" * 8 + "T", "t" * 50 + "1"]
 
 
 def inject_xml_defect(rng, text, defect):
